@@ -153,6 +153,7 @@ def schemas(draw, cfg=None, depth=None, _counter=None):
             if kw == "items" and "items" not in s:
                 s["items"] = draw(sub())
             elif kw == "tuple":
+                # Draft 6: a tuple `items` needs at least one schema (schemaArray has minItems 1)
                 s["items"] = draw(st.lists(sub(), min_size=1, max_size=3))
                 if "additionalItems" not in s and draw(st.booleans()):
                     s["additionalItems"] = draw(st.one_of(st.just(False), st.just(False), st.booleans(), sub()))
@@ -234,7 +235,12 @@ def schemas(draw, cfg=None, depth=None, _counter=None):
             if kw == "not":
                 s["not"] = draw(sub())
             else:
-                s[kw] = draw(st.lists(sub(), min_size=1, max_size=3))
+                branches = draw(st.lists(sub(), min_size=1, max_size=3))
+                if depth > 1 and draw(st.integers(0, 3)) == 0:
+                    # a bare nested composition of the same kind (must not be flattened for oneOf)
+                    inner = draw(st.lists(sub(depth - 2), min_size=2, max_size=3))
+                    branches.insert(draw(st.integers(0, len(branches))), {kw: inner})
+                s[kw] = branches
     if "annot" in groups or (cfg.defaults and draw(st.integers(0, 5)) == 0):
         if cfg.defaults:
             d = draw(st.one_of(jv.json_values(max_leaves=4), st.sampled_from([False, 0, "", [], {}, None])))
